@@ -576,4 +576,37 @@ def _extra_out_with_a_list_root(ctx):
             ctx.violation("dump-layout-mismatch:extra_out", f"name_mapping({kw}): {out!r:.160}, documented {want!r}", {"kw": repr(kw)})
 
 
-DIRECTED = {"extra-out-with-a-list-root": _extra_out_with_a_list_root, "generic-alias-as-single-predicate": _generic_alias_as_single_predicate, "omit-default-of-empty-factories": _omit_default_of_empty_factories, "map-reaches-every-descendant": _map_reaches_every_descendant, "enum-class-as-single-predicate": _enum_class_as_single_predicate, "omit-default-unhashable-default": _omit_default_unhashable, "collected-extras-known-branches": _collected_extras_known_branches}
+def _forbidden_unknown_keys_whatever_the_count(ctx):
+    """ExtraForbid rejects 'with exactly the set of unknown keys' however many known keys are present: k optional keys omitted and exactly
+    k unknown ones added leaves len(data) unchanged (seeded change, found three times: the check was skipped when the length matched)."""
+    from dataclasses import make_dataclass  # noqa: PLC0415
+
+    from adaptix import ExtraForbid, Retort, name_mapping  # noqa: PLC0415
+    from adaptix.load_error import ExtraFieldsLoadError  # noqa: PLC0415
+
+    M = make_dataclass("MF", [("ident", int), ("name", str), ("email", str, ""), ("age", int, 0)])
+    Inner = make_dataclass("InnerF", [("v", int), ("w", int, 0)])
+    Outer = make_dataclass("OuterF", [("inner", Inner), ("note", str, "")])
+    cases = [(M, {"ident": 1, "name": "a", "nmae": "b"}, {"nmae"}), (M, {"ident": 1, "name": "a", "x": 1, "y": 2}, {"x", "y"}), (M, {"ident": 1, "name": "a", "email": "e", "x": 1}, {"x"}),
+             (M, {"ident": 1, "name": "a", "email": "e", "age": 3, "x": 1}, {"x"}), (M, {"ident": 1, "name": "a"}, None), (M, {"ident": 1, "name": "a", "email": "e", "age": 3}, None),
+             (Outer, {"inner": {"v": 1, "u": 2}, "note": "n"}, {"u"}), (Outer, {"inner": {"v": 1, "w": 2}, "nope": "n"}, {"nope"})]
+    for dt, sc in MODES:
+        r = Retort(debug_trail=dt, strict_coercion=sc, recipe=[name_mapping(extra_in=ExtraForbid())])
+        for cls, datum, unknown in cases:
+            out = attempt(r.load, dict(datum), cls)
+            ctx.evaluated(("forbid-by-count", cls.__name__, repr(datum), dt.name, sc), nontrivial=True)
+            ctx.count("expected_reject" if unknown else "expected_ok")
+            info = {"model": cls.__name__, "datum": repr(datum), "mode": mode_name(dt, sc)}
+            if unknown is None:
+                if out.kind != "ok":
+                    ctx.violation("rejects-acceptable:forbid", f"{cls.__name__} <- {datum!r}: {out!r:.160}", info)
+                continue
+            if out.kind == "ok":
+                ctx.violation("accepts-rejectable:unknown", f"ExtraForbid loader accepted {datum!r} -> {out.value!r}; unknown keys {unknown} [{mode_name(dt, sc)}]", info)
+                continue
+            leaves = [e for _, e in error_nodes(out.exc) if isinstance(e, ExtraFieldsLoadError)] if out.kind == "load_error" else []
+            if not leaves or set().union(*[set(e.fields) for e in leaves]) != unknown:
+                ctx.violation("unknown-key-set-differs", f"{cls.__name__} <- {datum!r}: {out!r:.200}, unknown keys are {unknown}", info)
+
+
+DIRECTED = {"forbidden-unknown-keys-whatever-the-count": _forbidden_unknown_keys_whatever_the_count, "extra-out-with-a-list-root": _extra_out_with_a_list_root, "generic-alias-as-single-predicate": _generic_alias_as_single_predicate, "omit-default-of-empty-factories": _omit_default_of_empty_factories, "map-reaches-every-descendant": _map_reaches_every_descendant, "enum-class-as-single-predicate": _enum_class_as_single_predicate, "omit-default-unhashable-default": _omit_default_unhashable, "collected-extras-known-branches": _collected_extras_known_branches}
